@@ -127,23 +127,24 @@ def judge_window(C: Any, specs: Sequence[Dict[str, Any]], U: Dict[str, Any], T: 
 
 
 def judge_node(st: Stats, hist: History, specs: List[Dict[str, Any]], sch: Sequence[Tuple[int, str]], label: str,
-               only: Optional[Tuple[Optional[date], Optional[date]]] = None) -> None:
+               only: Optional[Tuple[Optional[date], Optional[date]]] = None, dates_override: Optional[List[date]] = None, name: Optional[str] = None) -> None:
     from rp2verif.seams import compute as C
 
     st.inc("histories")
-    base = {"history": H.hist_str(hist), "hist": hist, "specs": specs, "schedule": list(sch), "variant": label}
+    hs = name or H.hist_str(hist)
+    base = {"history": hs, "hist": hist, "specs": specs, "schedule": list(sch), "variant": label}
     u = C.run_window(specs, sch)
     if not u.ok:
         st.inc("evaluations")
         st.violation(dict(base, signature=f"C10 valid history rejected / {type(u.error).__name__}",
-                          what=f"{sched_str(sch)}: {H.hist_str(hist)} :: {type(u.error).__name__}: {u.error}"))
+                          what=f"{sched_str(sch)}: {hs} :: {type(u.error).__name__}: {u.error}"))
         return
     U, uerr = C.try_dump(u.computed)
     if U is None:
         st.inc("evaluations")
-        st.violation(dict(base, signature="C10 figures unreadable / unfiltered run", what=f"{sched_str(sch)}: {H.hist_str(hist)} :: {uerr}"))
+        st.violation(dict(base, signature="C10 figures unreadable / unfiltered run", what=f"{sched_str(sch)}: {hs} :: {uerr}"))
         return
-    dates = dates_of_interest(specs)
+    dates = dates_override if dates_override is not None else dates_of_interest(specs)
     tos: List[Optional[date]] = [None] + list(dates)
     froms: List[Optional[date]] = [None] + list(dates)
     hidden_any = False
@@ -157,12 +158,12 @@ def judge_node(st: Stats, hist: History, specs: List[Dict[str, Any]], sch: Seque
             if not t.ok:
                 st.inc("evaluations")
                 st.violation(dict(base, from_date=None, to_date=str(td), signature=f"C10 window rejected / {type(t.error).__name__}",
-                                  what=f"{sched_str(sch)} -t {td}: {H.hist_str(hist)} :: {type(t.error).__name__}: {t.error}"))
+                                  what=f"{sched_str(sch)} -t {td}: {hs} :: {type(t.error).__name__}: {t.error}"))
                 continue
             T, terr = C.try_dump(t.computed)
             if T is None:
                 st.inc("evaluations")
-                st.violation(dict(base, from_date=None, to_date=str(td), signature="C10 figures unreadable / to-date run", what=f"{sched_str(sch)} -t {td}: {H.hist_str(hist)} :: {terr}"))
+                st.violation(dict(base, from_date=None, to_date=str(td), signature="C10 figures unreadable / to-date run", what=f"{sched_str(sch)} -t {td}: {hs} :: {terr}"))
                 continue
         for fd in froms:
             if only is not None and fd != only[0]:
@@ -179,12 +180,12 @@ def judge_node(st: Stats, hist: History, specs: List[Dict[str, Any]], sch: Seque
                 w = C.run_window(specs, sch, fd, td)
                 if not w.ok:
                     st.violation(dict(base, from_date=str(fd), to_date=str(td) if td else None, signature=f"C10 window rejected / {type(w.error).__name__}",
-                                      what=f"{sched_str(sch)} -f {fd} -t {td}: {H.hist_str(hist)} :: {type(w.error).__name__}: {w.error}"))
+                                      what=f"{sched_str(sch)} -f {fd} -t {td}: {hs} :: {type(w.error).__name__}: {w.error}"))
                     continue
                 W, werr = C.try_dump(w.computed)
                 if W is None:
                     st.violation(dict(base, from_date=str(fd), to_date=str(td) if td else None, signature="C10 figures unreadable / windowed run",
-                                      what=f"{sched_str(sch)} -f {fd} -t {td}: {H.hist_str(hist)} :: {werr}"))
+                                      what=f"{sched_str(sch)} -f {fd} -t {td}: {hs} :: {werr}"))
                     continue
             problem = judge_window(C, specs, U, T, W, fd, td)
             hides = len(W["detail"]) < len(U["detail"]) and len(W["detail"]) > 0
@@ -194,9 +195,9 @@ def judge_node(st: Stats, hist: History, specs: List[Dict[str, Any]], sch: Seque
             if problem:
                 st.violation(dict(base, from_date=str(fd) if fd else None, to_date=str(td) if td else None,
                                   signature=f"C10 {problem.split(' ')[0]} {problem.split(' ')[1]} / {'from' if fd else ''}{'+to' if td else ''}",
-                                  what=f"{sched_str(sch)} -f {fd} -t {td}: {H.hist_str(hist)}{' [' + label + ']' if label else ''} :: {problem}"))
+                                  what=f"{sched_str(sch)} -f {fd} -t {td}: {hs}{' [' + label + ']' if label else ''} :: {problem}"))
     if hidden_any:
-        st.sample({"history": H.hist_str(hist), "variant": label, "schedule": sched_str(sch), "dates_of_interest": [str(d) for d in dates],
+        st.sample({"history": hs, "variant": label, "schedule": sched_str(sch), "dates_of_interest": [str(d) for d in dates],
                    "windows": (len(dates) + 1) * (len(dates) + 2) // 2}, cap=1)
 
 
@@ -318,6 +319,23 @@ def worker(task: Tuple[Any, ...]) -> Stats:
     return st
 
 
+def bundled_worker(chunk: List[Tuple[str, str]]) -> Stats:
+    """The inputs bundled with RP2, per asset sheet: every window from <= to over the transaction dates and the year bounds."""
+    from rp2verif import bundled
+
+    st = Stats()
+    data = bundled.load()
+    for fname, asset in chunk:
+        specs = data[fname][asset]
+        ev = sorted({parse_ts(s2["timestamp"]).date() for s2 in specs})
+        dates = sorted(set(ev) | {date(y, 1, 1) for y in {d.year for d in ev}} | {date(y, 12, 31) for y in {d.year for d in ev}})
+        own = bundled.schedule_of(fname)
+        for sch in [((1970, "fifo"),), ((1970, "hifo"),)] + ([tuple((int(y), m) for y, m in own)] if own else []):
+            st.inc("bundled_nodes")
+            judge_node(st, (), specs, sch, "", dates_override=dates, name=f"bundled input {fname}.ods, asset {asset} ({len(specs)} transactions)")
+    return st
+
+
 def plan(tier: str) -> List[Dict[str, Any]]:
     fifo = [((1970, "fifo"),)]
     hifo = [((1970, "hifo"),)]
@@ -340,6 +358,17 @@ def main(tier: str, budget_s: Optional[float] = None) -> int:
     cli_tasks = [(n, i) for n in sorted(cli_shapes()) for i in range(len(SECTIONS))]
     cres, cdone = common.pmap(cli_worker, cli_tasks, deadline=deadline, init=cli_init)  # first: this process is rp2-free
     total, info, complete = run_phases(plan(tier), worker, FIRST, SYMBOLS, EXTRA, deadline)
+    from rp2verif import bundled as _B
+
+    bt = _B.sheets()
+    tb = time.time()
+    bres, bdone = common.pmap(bundled_worker, [[x] for x in bt], deadline=max(deadline, time.time() + 120))
+    for r in bres:
+        if r is not None:
+            total.merge(r)
+    complete = complete and bdone == len(bt)
+    info.append({"phase": "inputs bundled with RP2: every window over the transaction dates and year bounds, per asset sheet of the 9 files x fifo / hifo (+ the file's own schedule)",
+                 "asset_sheets": len(bt), "executions": total.get("bundled_nodes"), "wall_s": round(time.time() - tb, 1)})
     ctotal = Stats()
     for r in cres:
         if r is not None:
